@@ -16,9 +16,13 @@ func leaseHistories(c *vlib.Ctx, prop string, mode leasecheck.Mode, n int, stale
 	// commit (every fifth commit waits 200us while holding the write lock, every
 	// seventh lease mutation waits before its commit): callers on the other
 	// handle and on other connections pile up exactly there.
+	hold := 200 * time.Microsecond
+	if prop != "C03" {
+		hold = 1500 * time.Microsecond // fencing: let stale callers and operators pile up behind a held write lock
+	}
 	verifhook.SetN("sqlite.commit.before", func(hit int64) {
 		if hit%5 == 0 {
-			time.Sleep(200 * time.Microsecond)
+			time.Sleep(hold)
 		}
 	})
 	verifhook.SetN("sqlite.lease.after_mutate", func(hit int64) {
@@ -52,6 +56,13 @@ func leaseHistories(c *vlib.Ctx, prop string, mode leasecheck.Mode, n int, stale
 					Backend: be, Store: sc, Messages: r.Range(4, 16), Clients: r.Range(8, 32), Phases: r.Range(20, 60),
 					StaleBias: stale, Transports: trs, Operator: r.Chance(0.6), SecondHandle: be == "sqlite" && r.Chance(0.6), Mode: mode, Prop: prop,
 					Label: fmt.Sprintf("%s/%s/h%d", prop, be, i),
+				}
+				if prop == "C14" || (prop == "C04" && i%3 == 0) {
+					// operator-heavy: cancel / requeue of leased messages race with the lease
+					// holders' settlements (batch forms, second handle on SQLite)
+					cfg.Operator, cfg.OperatorPct, cfg.SecondHandle = true, 30, be == "sqlite"
+					cfg.BatchPct, cfg.OperatorAimsAtLeased, cfg.StaleBias = 70, true, 0.2
+					cfg.Clients, cfg.Phases = r.Range(8, 16), r.Range(15, 30)
 				}
 				if mode == leasecheck.ModeExclusivity {
 					// keep messages circulating: many dequeues, releases mostly by nack / expiry
